@@ -10,7 +10,8 @@ import numpy as np
 from core import TRUST_COMMON
 import fitlib
 
-MODS = ["Nanite.Props.C01", "Nanite.Props.C01Real", "Nanite.Audit.C01"]
+MODS = ["Nanite.Props.C01", "Nanite.Props.C01Real", "Nanite.Audit.C01", "Nanite.Props.C01Noise",
+        "Nanite.Audit.C01Noise"]
 
 # the stated convergence basin (fixed here, echoed in the evidence)
 BASIN = {"contact_point": "within +-10 % of the contact depth range of the truth",
@@ -83,12 +84,82 @@ def defaults_isolated(ctx):
             ctx.violation(f"defaults-not-isolated:{mk}", "; ".join(bad), {"history": hist, "observed": bad})
 
 
+def fixed_cp_noise(ctx):
+    """tie of Props/C01Noise: with the contact point fixed the fit is a LINEAR least-squares problem in (E, b);
+    nanite's fit of noisy data must land on the closed-form least-squares pair, which the Lean model evaluates
+    at exact rationals (shape values g_i from the documented formula with E = 1, b = 0)"""
+    from fractions import Fraction
+    from props.c02 import documented
+    from curves import make_indentation
+    rng = ctx.rng
+    lines, keep = [], []
+    for i in range(6 if ctx.tier == "quick" else 80):
+        mk = rng.choice(fitlib.MODELS[:4])
+        truth = fitlib.truth_params(mk, rng)
+        cp = truth["contact_point"].value
+        base = fitlib.synth_curve(mk, truth, rng, n_app=rng.choice([120, 200]), n_ret=60, uniform=rng.random() < 0.7,
+                                  seed=4000 + i)
+        P = {k: float(truth[k].value) for k in truth}
+        P1 = dict(P, E=1.0)
+        tip = np.asarray(base["tip position"], dtype=float)
+        seg = np.asarray(base["segment"]) == 0
+        g = np.array([documented(mk, cp - x, P1) if cp - x > 0 else 0.0 for x in tip])
+        exact = P["E"] * g + P["baseline"]
+        fmax = float(np.max(np.abs(exact - P["baseline"])))
+        rel = rng.choice([1e-3, 1e-2, 5e-2])
+        e = np.random.default_rng(ctx.seed * 31337 + i).normal(0, 1, tip.size)
+        force = exact + rel * fmax * e
+        idnt = make_indentation(force, tip - force / 0.05, base["segment"], time=base["time"], tip=tip)
+        p0 = copy.deepcopy(truth)
+        p0["E"].set(value=P["E"] * 1.5 ** rng.uniform(-1, 1), vary=True)
+        p0["baseline"].set(value=P["baseline"] + 0.05 * fmax * rng.uniform(-1, 1), vary=True)
+        p0["contact_point"].set(value=cp, vary=False)
+        for n_ in p0:
+            if n_ not in ("E", "baseline"):
+                p0[n_].set(vary=False)
+        res, rec = fitlib.fit(idnt, model_key=mk, params_initial=p0, segment=0, weight_cp=0, range_x=(0, 0),
+                              range_type="absolute", method="leastsq")
+        meta = {"stream": "fixed-contact-point noise", "model": mk, "noise_rel": rel, "n": int(seg.sum()),
+                "truth": {"E": P["E"], "baseline": P["baseline"], "contact_point": cp}}
+        ctx.case(meta, nontrivial=json.dumps(meta, sort_keys=True), bucket=["stream=fixed-cp-noise", "model=" + mk,
+                                                                             f"noise={rel}"])
+        if res != "ok" or not idnt.fit_properties.get("success"):
+            ctx.violation("no-success:fixed-cp-noise", f"fit with a fixed contact point did not succeed ({res})",
+                          {"input": meta})
+            continue
+        pf = idnt.fit_properties["params_fitted"]
+        q_ = lambda v: str(Fraction(float(v)))        # noqa: E731
+        lines.append({"op": "ols", "g": [q_(v) for v in g[seg]], "y": [q_(v) for v in force[seg]]})
+        keep.append((meta, pf["E"].value, pf["baseline"].value, P, fmax, rel))
+    out = ctx.driver("C07", lines) if lines else None
+    if out is None:
+        return
+    for (meta, Efit, bfit, P, fmax, rel), o in zip(keep, out):
+        try:
+            m = float(Fraction(o.split("m=")[1].split(" ")[0]))
+            c = float(Fraction(o.split("c=")[1]))
+        except Exception:
+            ctx.disagree(meta, [Efit, bfit], o, "closed-form least squares (Lean) unreadable")
+            continue
+        if abs(Efit - m) > 1e-5 * abs(m) or abs(bfit - c) > 1e-6 * fmax:
+            ctx.disagree(meta, [Efit, bfit], [m, c], "fit with fixed contact point vs closed-form least squares")
+        # the property's noise clause, with the constants the linear theory gives room for
+        if abs(Efit - P["E"]) > 60 * rel * P["E"] or abs(bfit - P["baseline"]) > 10 * rel * fmax:
+            ctx.violation("noise-tolerance:fixed-cp", f"E = {Efit!r} (truth {P['E']!r}), baseline = {bfit!r} (truth "
+                          f"{P['baseline']!r}) for relative noise {rel}", {"input": meta})
+
+
 def run(ctx):
     ctx.trusted = TRUST_COMMON + [
         "theorems: zero residual at the generating parameters, every least-squares minimiser reproduces exact "
         "data, identifiability / uniqueness for power laws, instantiated at the REGENERATED hertz_para / "
         "hertz_cone / hertz_pyr3s (Props/C01Real) - convergence of MINPACK / Nelder-Mead from the basin, the "
-        "precision reached and the noise clause are runtime numerics, explored by the recovery runs below"]
+        "precision reached and the noise clause for a varied contact point are runtime numerics, explored by the "
+        "recovery runs below",
+        "noise clause with the contact point FIXED (Props/C01Noise): the fit is linear least squares in (E, b); the "
+        "closed form is proved to minimise the squared residuals and to deviate from the generating values exactly "
+        "proportionally to the noise amplitude - tied by comparing nanite's fit of noisy curves with the closed form "
+        "evaluated by the Lean driver at exact rationals (stream fixed-cp-noise)"]
     ctx.assumptions = ["stated basin: " + json.dumps(BASIN)]
     ctx.rule = ("ground truth generated from every shipped model (E over 4 decades, contact point, baseline, "
                 "geometry; 120-1500 points; uniform, non-uniform and jittered (non-monotonic) sampling; approach and retract; weighting "
@@ -259,6 +330,7 @@ def run(ctx):
             ctx.violation("not-recovered:" + tag, "generating parameters not recovered: " + "; ".join(bad),
                           {**rep, "observed": bad})
     defaults_isolated(ctx)
+    fixed_cp_noise(ctx)
     ctx.extra["basin"] = BASIN
 
 
